@@ -7,6 +7,7 @@ statements are in the sections "Property theorems".
 import Wpull.Url
 import Proofs.Lemmas.Ipv4
 import Proofs.Lemmas.Flatten
+import Proofs.Lemmas.Port
 namespace Wpull.Url
 open Wpull
 
@@ -595,6 +596,65 @@ theorem default_port_elided (i : URLInfo) (sch : Str) (dp : Nat)
         (if (i.username.getD []).isEmpty && (i.password.getD []).isEmpty then [] else [64]), ?_⟩
       simp only [hp, bne_self_eq_false, Bool.false_eq_true, if_false, List.append_nil, List.append_assoc]
       rfl
+
+/-- **C10, port kept.**  Converse of `default_port_elided`: a port that is not the default
+of the URL's *own* scheme (in particular the default port of another scheme: `https://h:80/`)
+is written, in decimal, between host and path. -/
+theorem nondefault_port_kept (i : URLInfo) (sch : Str) (dp p : Nat)
+    (hs : netScheme? i.scheme = some (sch, dp)) (hp : i.port = some p) (hne : p ≠ dp)
+    (u : Str) (hu : i.url = .ok u) :
+    ∃ ui, u = sch ++ [58, 47, 47] ++ ui ++
+      (if i.isIPv6 == some true then [91] ++ i.hostname.getD [] ++ [93] else i.hostname.getD []) ++
+      (58 :: natDec p) ++ i.path.getD [] ++
+      (match i.query with
+       | some q => if q.isEmpty then [] else 63 :: q
+       | none => []) := by
+  unfold URLInfo.url at hu
+  rw [hs] at hu
+  simp only at hu
+  split at hu
+  · cases hu
+  · split at hu
+    · cases hu
+    · rename_i x1 a ha x2 b hb
+      cases hu
+      refine ⟨a ++ (if (i.password.getD []).isEmpty then [] else 58 :: b) ++
+        (if (i.username.getD []).isEmpty && (i.password.getD []).isEmpty then [] else [64]), ?_⟩
+      have hne' : (some dp != some p) = true := by
+        simp only [bne_iff_ne, ne_eq, Option.some.injEq]; exact fun h => hne h.symm
+      simp only [hp, hne', if_true, Option.getD_some, List.append_assoc]
+      rfl
+
+-- https on port 80 (the default of another scheme) keeps its port
+example : (parse cfgT [104, 116, 116, 112, 115, 58, 47, 47, 104, 58, 56, 48, 47]).bind URLInfo.url
+    = .ok [104, 116, 116, 112, 115, 58, 47, 47, 104, 58, 56, 48, 47] := by decide
+
+/-- **C10, port re-parse.**  The `host:port` part of a normal form gives back the same host
+name and the same port: for a (non-bracketed) host name `hn` returned by `parse_hostname` and
+any port `p` ≤ 65535 written in decimal, `parse_host(hn + ':' + str(p)) = (hn, p)`, under any
+parameters.  With `nondefault_port_kept` / `default_port_elided`: a kept port is read back
+as itself, so two URLs of one scheme that differ in the port differ in the normal form. -/
+theorem hostport_reparse (c c' : Cfg) {h hn : Str} (hb : startsWith h [91] = false)
+    (hh : parseHostname c h = .ok hn) (p : Nat) (hp : p < 65536) :
+    parseHost c' (hn ++ 58 :: natDec p) = .ok (hn, some p) := by
+  have hdig := natDec_digits p
+  have hno : 58 ∉ natDec p := by
+    intro hm; have := hdig.2 58 hm; omega
+  unfold parseHost
+  rw [endsWith_bracket_natDec hn p]
+  simp only [Bool.false_eq_true, if_false, rpartition1_append hn (natDec p) hno, if_true]
+  rw [pyInt_natDec p hp]
+  simp only
+  have h1 : ¬ (Int.ofNat p < 0) := by
+    show ¬ ((p : Int) < 0); omega
+  have h2 : ¬ (Int.ofNat p > 65535) := by
+    show ¬ ((p : Int) > 65535); omega
+  have hrange : (decide (Int.ofNat p < 0) || decide (Int.ofNat p > 65535)) = false :=
+    Bool.or_eq_false_iff.mpr ⟨decide_eq_false h1, decide_eq_false h2⟩
+  rw [hrange]
+  simp only [Bool.false_eq_true, if_false]
+  rw [hostname_idem c c' hb hh]
+  rfl
 
 /-- a port different from the default is written in decimal after the host -/
 example : (parse cfgT [104, 116, 116, 112, 58, 47, 47, 104, 58, 56, 49]).bind URLInfo.url
